@@ -232,7 +232,10 @@ void check_one(World& w, const Task& t, const std::vector<int>& choice, const Im
             static const std::map<std::string, std::set<std::string>> group = {
                 {"sample_count", {"sample_count", "sample_rate", "waveform", "beatgrid", "bpm", "duration"}}, {"sample_rate", {"sample_count", "sample_rate", "waveform", "beatgrid", "bpm", "duration"}},
                 {"waveform", {"waveform"}}, {"beatgrid", {"beatgrid", "bpm"}}, {"bpm", {"bpm"}}, {"duration", {"duration"}}, {"hot_cues", {"hot_cues", "main_cue"}}, {"main_cue", {"main_cue", "hot_cues"}}};
-            std::set<std::string> skip = {"waveform"};  // derived / resampled data
+            // the base waveform has the size the library recommends for the base's sample count and rate (1024 overview points
+            // without opacity on 2.x, the high-resolution extent on 1.x), which is the representable case: it reads back as
+            // given unless the waveform itself or the count / rate it is sized by was deviated (groups below)
+            std::set<std::string> skip;
             for (auto& tf : b.touched)
             {
                 skip.insert(tf);
@@ -413,7 +416,7 @@ int run(const Options& o)
     s2["case"] = "1.6.0|3|0|base";
     s2["meaning"] = "schema 1.6.0, snapshot with all eight slots written by update over a track created from the minimal snapshot";
     ev.sample(s2);
-    ev.assumption("normalisation table in src/model/trackfields.cpp (shared with C06); waveforms, and bpm on 1.x when a beat grid is stored, are derived data and are held to the fixed-point and no-later-exception requirements only");
+    ev.assumption("normalisation table in src/model/trackfields.cpp (shared with C06); a waveform of the recommended size (every base snapshot has one) must read back as given unless the waveform, sample count or sample rate was deviated; deviated waveforms follow the table (1.x as given; 2.x only the empty and the 1024-entry full-opacity waveform are predicted); bpm on 1.x when a beat grid is stored is derived data held to the fixed-point and no-later-exception requirements only");
     for (auto& h : total.harness_errors) fprintf(stderr, "harness error: %s\n", h.c_str());
     int bad = rep.finish();
     if (!total.harness_errors.empty()) bad = -1;
